@@ -261,6 +261,9 @@ def r09_8(ctx):
 
 @rule("R09.3", "C09", "removal safety: operands that can have other users (de-duplicated by name) are only removed under a use-count guard", min_instances=4)
 def r09_3(ctx, skip=()):
+    from .c11 import add_op_registers_what_it_returns
+
+    add_op_registers_what_it_returns(ctx)  # an operand a folder removed is registered again when live code names it later
     idx = get_index(ctx.env)
     # classes whose removal is harmless: inlined literals (no declaration is ever emitted for them)
     init = idx.func("RZILTransformer.__init__")
@@ -387,7 +390,9 @@ def literal_rendering(ctx):
     idx = get_index(ctx.env)
     fr = idx.func("LetVar.get_rzil_val")
     for signed, val, exp in ((True, 5, "SN(<W>, 5)"), (False, 5, "UN(<W>, 5)"), (True, 255, "SN(<W>, 0xff)"), (False, 32, "UN(<W>, 0x20)"),
-                             (True, 0x1ffffffff, "SN(<W>, 0x1ffffffff)"), (False, 0xffffffffffffffff, "UN(<W>, 0xffffffffffffffff)"), (True, 0x80000000, "SN(<W>, 0x80000000)")):
+                             (True, 0x1ffffffff, "SN(<W>, 0x1ffffffff)"), (False, 0xffffffffffffffff, "UN(<W>, 0xffffffffffffffff)"), (True, 0x80000000, "SN(<W>, 0x80000000)"),
+                             (True, -1, "SN(<W>, -1)"), (True, -31, "SN(<W>, -31)"), (True, -256, "SN(<W>, -256)"), (True, -0x100000000, "SN(<W>, -4294967296)"), (False, -1, "UN(<W>, -1)"),
+                             (True, 31, "SN(<W>, 31)"), (True, 32, "SN(<W>, 0x20)")):
         outs = Interp(idx).explore(lambda i: i.call_function(fr, [], self_obj=AObj("Number", {"value": val, "value_type": mk_vt("t", signed, Sym("W"))}, label="self")))
         obs = {normalise(outcome_text(o)) for o in outs}
         ctx.check(f"literal rendering [{'s' if signed else 'u'}, {val}]", obs == {exp}, exp, str(sorted(obs)), fn_where(idx, fr))
